@@ -35,6 +35,8 @@ CLAIMS = {
             NOTE_ENGINE + "; directory lock not modelled here (C16); refreshing a non-empty destination is outside the theorems"),
     "C10": ("Theorems C10_*: for every index content, EVERY assignment of keys to shards and shard count, each of the three shard-iterator kinds, both directions, every prefix and every call sequence over Rewind/Seek/Next whose Seek targets lie at or ahead of the cursor, (Valid, Key, position of Value) at creation and after every call equal those of a cut into the ordered, prefix-filtered snapshot (refinement proof with an invariant over live and parked shard cursors); the reference yields every key once in order and Seek positions at the first key at or after the target; ListKeys is the forward snapshot; the check runs generated legal call sequences (writes interleaved after creation, several iterators, all index types and shard counts) on the real engine, the model and a reference iterator",
             "theorems are about the Gallina model of index/sharded_index.go, btree.go, skiplist.go, map.go and iterator.go (model/Index.v); container/heap and the ordered containers are abstracted by their contracts; Value is the record at the snapshot's position (C01: positions stay readable while the database is open)"),
+    "C15": ("Theorems C15_*: on an explicit heap of byte cells, for every call sequence of a caller that reuses one key buffer and one value buffer, overwrites them with arbitrary bytes after every return and writes arbitrary bytes into every returned slice, an engine that copies at the boundary returns exactly the results of the value-semantic run and ends with its contents; no cell other than the caller's two buffers is ever modified after it exists (returned slices never change); the check runs every generated engine scenario with such a hostile caller (all index types, batches, merges, restarts) against the value-semantic model, with canaries on returned slices",
+            "partial: the theorems concern the discipline, not the Go code; that the implementation follows it is established by hostile execution against the value-semantic model (testing), since no semantics of Go slices is available here"),
     "C16": ("Theorems C16_*: for every sequence of Open attempts (any handles - goroutines or processes -, any directories, each completing or failing during initialisation) and Closes no directory ever has two holders; a held directory rejects every Open with the in-use error and nothing changes; a failed Open leaves it free; Close releases exactly its own locks; and every exit path of func Open extracted from the current source keeps or releases the lock as the model assumes (theorem over the generated path list). The check runs rejected Opens from the same and from child processes, failing Opens followed by regular ones, and races of several processes, comparing results with the lock-table model and the directory bytes before/after",
             "theorems are about the lock-table model (model/LockTable.v) and the exit-path list regenerated from db.go by translator T3; flock semantics are the OS contract; process interleavings are exercised, not enumerated"),
     "C12": ("Theorems C12_*: on ARBITRARY bytes at any reader position the chunk decoder, the sequential reader, the scan loop of Open/Merge and the random read never panic (every slice/index expression is a checked access in the model) and terminate; a chunk is accepted only if it carries the checksum of its own length, type and payload bytes, a record only if its header lengths add up to exactly the bytes present; a damaged checksum field is always rejected, a damaged type/payload byte for every checksum that separates strings differing in one byte; the check reads every damaged file (all single-bit flips of small files; random flips, truncations, garbage on multi-block files) with the real reader and the model and compares, and flips every bit of every byte of small databases under the real Open/Get/Fold with a written-values oracle",
